@@ -6,6 +6,7 @@ PROP = {
     "theorems": ["Grol.Save.C14.sorted_one_per_binding", "Grol.Save.C14.one_line", "Grol.Save.C14.one_line_std",
                  "Grol.Save.C14.data_binding_line", "Grol.Save.C14.limit_skips", "Grol.Save.C14.int_roundtrip",
                  "Grol.Save.C14.partial", "Grol.Save.C14.readBack_printed",
+                 "Grol.Save.C14.quote_roundtrip", "Grol.Save.C14.quoteBody_ascii", "Grol.Save.readLoop_quoted", "Grol.Save.quoteByte_shape",
                  "Grol.Save.sortB_perm", "Grol.Save.sortB_sorted", "Grol.Save.saveSorted_spec",
                  "Grol.Save.inspectP_noNL", "Grol.Save.quoteAscii_noNL", "Grol.Save.floatBytes_noNL",
                  "Grol.Save.parseDecInt_digitBytes"],
@@ -16,10 +17,14 @@ PROP = {
             "saved again (bytes compared), and every call expression of the case is evaluated on the original and on both reloaded states "
             "(output, value, error, panic kind compared); SaveGlobals is repeated with the case's MaxValueLen; a child process whose working "
             "directory is a scratch directory under work/ runs the real save(\"c14\") / load(\"c14\") and repl.AutoSave / repl.AutoLoad on the "
-            "same definitions and its files and reloaded states are compared with the in-process ones. Families: every scalar of a pool "
+            "same definitions and its files and reloaded states are compared with the in-process ones; in every case the child's session then goes on "
+            "(every other user global deleted, the others set to 1) and is saved a SECOND time over the same files (save(\"c14\") and AutoSave): file bytes = "
+            "SaveGlobals' own bytes, load()/AutoLoad into fresh states = evaluating those bytes in-process, no temporary file left. Families: every scalar of a pool "
             "(16 ints incl. both int64 extremes, 28 floats incl. integral values, -0.0, subnormals, 1e308, +-Inf, NaN, 0.1, 1e21, 1e-7, 2^53, +-2^63) "
             "alone, in an array, as map key and as map value; each of the 256 one-byte strings alone and all together, the 256-byte string "
-            "(also as element, key and value), 14 runes (multi-byte, non-printable, U+2028, BOM, U+FFFD, U+E0001), raw newlines; 22 hand-written "
+            "(also as element, key and value), 14 runes (multi-byte, non-printable, U+2028, BOM, U+FFFD, U+E0001), raw newlines; invalid UTF-8 that comes from no escape: each byte 0x80-0xff RAW in a "
+            "source literal, the raw 255-byte string (alone, as element, key and value), backtick strings, every slice of \"h<rune>\" cutting a character "
+            "(alone, in arrays, as map key/value, glued with +), a function body with raw bytes; 22 hand-written "
             "function cases (named, lambda, parentheses, variadic, recursion, self, closures, nested definitions, comments, functions in arrays, aliases); "
             "constants and names shadowing pre-seeded identifiers (abs, Inf, NaN, printf, ...), del of pre-seeded identifiers; MaxValueLen 1..40 on "
             "a fixed environment; values printed on more than 64 KiB; 300 (quick) / 6000 (thorough) random data environments of 1-10 bindings "
@@ -35,7 +40,7 @@ PROP = {
         "theorems use the byte-level printers quoteAscii / floatBytes / intBytes, which the driver compares with the evaluator model's "
         "quoteBytes / floatStr / int64Str and with the implementation on every scalar of every case",
         "NOT modelled (checked on the implementation by the suite only): the loading side as a whole - lexer + parser + evaluator on the saved "
-        "text (composed only for integers, booleans and nil in readBack), strconv.ParseFloat/FormatFloat round trip, functions behaving identically, "
+        "text (composed only for integers, booleans, nil and ASCII strings in readBack), strconv.ParseFloat/FormatFloat round trip, functions behaving identically, "
         "the file paths (save/load/AutoSave/AutoLoad: compared with the in-process path, not predicted)",
     ],
     "assumptions": ["strconv.FormatFloat('f', -1) / ParseFloat round-trip every finite float64 (Go library law; exercised by the float pool, not proved)",
@@ -47,7 +52,7 @@ LEVEL = {
     "text": "Kernel-checked theorems about a Lean model of SaveGlobals and of the printed forms: for every store the lines are written in key order, exactly one "
             "per written binding; the printed form of every data value (any nesting) has no newline byte, so each data binding is exactly one line "
             "name=text; under a length limit a line is the full line or absent; the printed form of every int64, both extremes included, evaluates back to "
-            "it. The full property is stated (Statement) and proved for stores whose data are integers, booleans and nil (partial); strings, floats, "
+            "it; for every string of bytes below 0x80 the lexer model's string reader applied to its quoted form returns exactly the string and consumes exactly the literal (the strconv.Quote / readString pair, by induction on the string). The full property is stated (Statement) and proved for stores whose data are integers, booleans, nil and ASCII strings (partial); non-ASCII strings, floats, "
             "containers and functions are covered by the correspondence suite, which saves ~1.1k (quick) / ~11k (thorough) generated environments with the "
             "real code, loads them back both ways into fresh states, compares values, second save, calls of reloaded functions, the limit, and the real files.",
     "design_ref": "DESIGN.md section 7, C14",
